@@ -1,2 +1,3 @@
-(* Proofs/SeqProofsC.v *)
+(* Proofs/SeqProofsC.v — intentionally empty: the C12 lemmas are in SeqProofs.v,
+   the C13 lemmas in SeqProofsB.v, the C14 lemmas in TranslateProofs.v. *)
 From Bio Require Import Base.
